@@ -402,3 +402,31 @@ func VerifC13Presence() {
 	vObserve("ndiffs", len(diffs))
 	vAssert(vBreaking(diffs), "an edit the documentation lists as breaking for requests produced no Breaking change")
 }
+
+func init() { vRegister("VerifC13NumericEnum", VerifC13NumericEnum) }
+
+// C13, numeric parameter whose enum changes (any two subsets of {1,2,3}, incl. none), bounds held absent
+func VerifC13NumericEnum() {
+	typ, format := vNumType("type")
+	mk := func(tag string) vNumDef {
+		d := vNumDef{typ: typ, format: format}
+		d.enumN = vChoice(tag+".enumN", 3)
+		for i := 0; i < d.enumN; i++ {
+			d.enum[i] = vChoice(tag+".enum", 3)
+		}
+		if d.enumN == 2 {
+			vAssume(d.enum[0] < d.enum[1])
+		}
+		return d
+	}
+	old, new := mk("old"), mk("new")
+	w := vF64("witness")
+	vAssume(old.accepts(w))
+	vAssume(vNot(new.accepts(w)))
+	vCover("witness-exists")
+	s1 := vSpecWithParams(vQueryParam("p", old.typ, old.format, false, old.validations()))
+	s2 := vSpecWithParams(vQueryParam("p", new.typ, new.format, false, new.validations()))
+	diffs, _ := Compare(s1, s2)
+	vObserve("ndiffs", len(diffs))
+	vAssert(vBreaking(diffs), "numeric value accepted by the old enum and rejected by the new one, but no Breaking change reported")
+}
